@@ -138,15 +138,39 @@ CallImms == { R(M2), R(Mh), Imag(FALSE, M2), R(Mb) } \cup (IF Api THEN { Real(TR
 Calls == { Call("f", <<>>), Call("f", <<CArgId("ro")>>), Call("f", <<CArgMRef(MT), CArgId("Theta")>>) }
          \cup { Call("f", <<CArgId("ro"), CArgImm(v)>>) : v \in CallImms } \cup { Call("f", <<CArgImm(v), CArgMRef(MR)>>) : v \in CallImms }
 
-\* placeholders (C04): one per place a qubit or a label can sit
-WithPlaceholders ==
-  { Gate("X", <<>>, <<Qp>>, <<>>), Gate("CNOT", <<>>, <<Q0, Qp>>, <<>>), Measure(None, Qp, Some(MR)), Reset(Some(Qp)),
-    Delay(E1, <<>>, <<Qp>>), Fence(<<Q0, Qp>>), Pulse(TRUE, Frame(S_rf, <<Qp>>), W0), Capture(TRUE, Frame(S_rf, <<Q0, Qp>>), W0, MR),
-    RawCapture(TRUE, Frame(S_rf, <<Qp>>), E1, MR), FrameExpr("SET-PHASE", Frame(S_rf, <<Qp>>), E1),
-    SwapPhases(F0, Frame(S_rf, <<Qp>>)), DefFrame(Frame(S_rf, <<Qp>>), <<AttrStr("DIRECTION", <<"t", "x">>)>>),
-    DefCal("X", <<>>, <<Qp>>, <<>>, <<GX>>), DefCal("X", <<>>, <<Q0>>, <<>>, <<Gate("Y", <<>>, <<Qp>>, <<>>)>>),
-    DefCalMeasure(None, Qp, None, <<GX>>), DefCircuit("c", <<>>, <<>>, <<Reset(Some(Qp))>>),
-    Label(TPh(1)), Jump(TPh(1)), JumpWhen(TPh(1), MR), JumpUnless(TPh(2), MR) }
+\* placeholders (C04): a qubit or label placeholder at EVERY position of every list and nesting level, and the same
+\* shapes with a fixed qubit / label in its place (the converse: no placeholder => serialization succeeds).
+\* PhQ / PhT are the placeholder (TRUE) or its resolved counterpart (FALSE).
+PhQ(ph) == IF ph THEN Qp ELSE Fixed(5)
+PhT(ph) == IF ph THEN TPh(1) ELSE TFixed("resolved")
+\* instructions that hold exactly one qubit / label (placed inside bodies and programs)
+PhInstrs(ph) ==
+  { Gate("X", <<>>, <<PhQ(ph)>>, <<>>), Measure(None, PhQ(ph), Some(MR)), Reset(Some(PhQ(ph))),
+    Pulse(TRUE, Frame(S_rf, <<PhQ(ph)>>), W0), Jump(PhT(ph)), JumpWhen(PhT(ph), MR), JumpUnless(PhT(ph), MR), Label(PhT(ph)) }
+\* a list of three with x at position k and fillers elsewhere
+At3(k, x, f1, f2) == CASE k = 1 -> <<x, f1, f2>> [] k = 2 -> <<f1, x, f2>> [] k = 3 -> <<f1, f2, x>>
+At2(k, x, f) == IF k = 1 THEN <<x, f>> ELSE <<f, x>>
+PhShapes(ph) ==
+  \* every position of a qubit list
+  UNION { { Gate("CCNOT", <<>>, At3(k, PhQ(ph), Q0, Q1), <<>>), Fence(At3(k, PhQ(ph), Q0, Q1)),
+            Delay(E1, <<S_rf>>, At3(k, PhQ(ph), Q0, Q1)), Delay(E1, <<>>, At3(k, PhQ(ph), Q0, Q1)),
+            DefCal("CCNOT", <<>>, At3(k, PhQ(ph), Q0, Qq), <<>>, <<GX>>) } : k \in 1..3 }
+  \cup UNION { { Pulse(TRUE, Frame(S_rf, At2(k, PhQ(ph), Q0)), W0), Capture(TRUE, Frame(S_rf, At2(k, PhQ(ph), Q0)), W0, MR),
+                 RawCapture(TRUE, Frame(S_rf, At2(k, PhQ(ph), Q0)), E1, MR), FrameExpr("SET-PHASE", Frame(S_rf, At2(k, PhQ(ph), Q0)), E1),
+                 SwapPhases(F0, Frame(S_rf, At2(k, PhQ(ph), Q0))), SwapPhases(Frame(S_rf, At2(k, PhQ(ph), Q0)), F0),
+                 DefFrame(Frame(S_rf, At2(k, PhQ(ph), Q0)), <<AttrStr("DIRECTION", <<"t", "x">>)>>) } : k \in 1..2 }
+  \cup { Measure(None, PhQ(ph), Some(MR)), Reset(Some(PhQ(ph))), DefCalMeasure(None, PhQ(ph), None, <<GX>>),
+         Label(PhT(ph)), Jump(PhT(ph)), JumpWhen(PhT(ph), MR), JumpUnless(PhT(ph), MR) }
+  \* every position of every kind of body, every kind of instruction that can hold a placeholder
+  \cup UNION { { DefCal("X", <<>>, <<Q0>>, <<>>, At3(k, i, GX, Nop)),
+                 DefCalMeasure(None, Q0, Some("addr"), At3(k, i, GX, Nop)),
+                 DefCircuit("c", <<>>, <<"q">>, At3(k, i, GX, Nop)) } : k \in 1..3, i \in PhInstrs(ph) }
+\* whole programs: the placeholder in the first, second or last instruction (and one level down, inside a body)
+PhPrograms(ph) ==
+  UNION { { At3(k, i, GX, Nop) : k \in 1..3 } : i \in PhInstrs(ph) }
+  \cup { At3(k, DefCalMeasure(None, Q0, None, <<GX, Gate("Y", <<>>, <<PhQ(ph)>>, <<>>)>>), GX, Halt) : k \in 1..3 }
+WithPlaceholders == PhShapes(TRUE) \cup PhShapes(FALSE)
+PlaceholderPrograms == PhPrograms(TRUE) \cup PhPrograms(FALSE)
 
 \* ---- list shapes: every list-valued field occurs with 0, 1, 2 and 3 elements somewhere in the alphabet, with
 \* pairwise distinct elements (a separator or prefix written only before the first / after the last element, two
@@ -214,8 +238,12 @@ Grow == /\ phase = "gen" /\ Len(prog) < MaxLen
              /\ (Len(prog) >= 1 => prog[1] \in PairAlphabet)
              /\ prog' = Append(prog, i)
         /\ UNCHANGED phase
+\* C04: a whole program at once (placeholder placements at program level)
+GrowProgram == /\ phase = "gen" /\ Api /\ prog = <<>>
+               /\ \E p \in PlaceholderPrograms : prog' = p
+               /\ UNCHANGED phase
 Done == /\ phase = "gen" /\ prog # <<>> /\ phase' = "done" /\ UNCHANGED prog
-Next == Grow \/ Done
+Next == Grow \/ GrowProgram \/ Done
 Spec == Init /\ [][Next]_vars
 
 Single == phase = "done" /\ Len(prog) = 1
@@ -228,6 +256,11 @@ ParseNormalIsFixpoint == Single /\ ~Api => CanonI(prog[1]) = prog[1]
 \* the writer leaves no DELAY whose printed duration can also be read as further qubits and a shorter duration
 NoAmbiguousDelay == Single => ~DelayAmbiguous(prog[1])
 Placeholders == Single => PlaceholderIffFails(prog[1])
+\* the same law for a program: Program::to_quil fails exactly when some instruction holds a placeholder
+PlaceholdersProgram == phase = "done" => ((\E n \in DOMAIN prog : HasPh(prog[n])) <=> HasDbg(PrintProgram(prog)))
+\* and a placeholder-free program of the C04 family reads back (instruction by instruction)
+ProgramOfValues == phase = "done" /\ Api /\ Len(prog) >= 2 /\ ~(\E n \in DOMAIN prog : HasPh(prog[n])) =>
+                     Bind(ReadProgram(PrintProgram(prog)), LAMBDA r : r.ok /\ r.v = CanonIs(prog))
 \* (for a single instruction InstrRoundTrip and InstrPrintStable say the same)
 ProgramLevel == phase = "done" /\ ~Api /\ Len(prog) >= 2 => ProgramRoundTrip(prog)
 ListingFixpoint == phase = "done" => ListingIsFixpoint(prog)
